@@ -5,6 +5,7 @@
   corollaries of the invariant `VInv` (Lemmas/StreamInv.lean).
 -/
 import EyeballVerif.Lemmas.StreamInv
+import EyeballVerif.Lemmas.RestInv
 namespace EV
 
 /-- `s` is reachable: some capacity the constructor accepts, some event sequence -/
@@ -94,6 +95,42 @@ theorem c05_delivered_applicable {α} {s s' : OV α} (hr : Reach s) (i : Nat) (i
   obtain ⟨r0, _, ha, _, hs'⟩ := poll_unfold s s' i it h
   obtain ⟨rep', g1, g2⟩ := c05_replay_inv hr' i r' h2 ha'
   exact ⟨r, r', rep, rep', h1, h2, h3, g1, by rw [← h5, g1], g2, by rw [hs'], by rw [hs']⟩
+
+theorem reach_restIn {α} {s : OV α} (h : Reach s) : RestIn s := by
+  obtain ⟨c, evs, hc, rfl⟩ := h
+  exact restIn_run c hc evs
+
+/-- **C06 (a `Reset` means lag, and is current).** At a reachable state, whenever a delivered item contains a
+    `Reset`, the receiver was between batches and more than a window behind, the `Reset` is the whole item and
+    it carries exactly the current contents. No update ever produces a `Reset` by itself. -/
+theorem c06_reset_only_when_lagged {α} {s s' : OV α} (hr : Reach s) (i : Nat) (it : Item α) (vs : List α)
+    (h : s.poll i = some (it, s'))
+    (hres : it = .one (.reset vs) ∨ ∃ ds, it = .batch ds ∧ Diff.reset vs ∈ ds) :
+    vs = s.vals ∧ (it = .one (.reset s.vals) ∨ it = .batch [.reset s.vals]) ∧
+    ∃ r, s.subs[i]? = some r ∧ r.rest = [] ∧ r.next + s.B < s.log.length := by
+  obtain ⟨r, r', rep, h1, h2, h3, h4, ⟨h5, _⟩, hc⟩ := poll_cases s s' i it (reach_inv hr) h
+  have hnr := owed_no_reset s (reach_inv hr) (reach_restIn hr) i r h1
+  rcases hc with ⟨h6 | h6, _⟩ | ⟨ds, h6, _, ho⟩ | ⟨h6, hrest, hlag, _⟩
+  · rcases hres with rfl | ⟨ds, rfl, _⟩ <;> simp at h6
+  · rcases hres with rfl | ⟨ds, rfl, _⟩ <;> simp at h6
+  · exfalso
+    have hmem : Diff.reset vs ∈ ds := by
+      rcases h6 with rfl | ⟨d, rfl, rfl⟩
+      · rcases hres with hx | ⟨ds', hx, hm⟩
+        · cases hx
+        · cases hx; exact hm
+      · rcases hres with hx | ⟨ds', hx, _⟩
+        · cases hx; simp
+        · cases hx
+    exact hnr (.reset vs) (by rw [ho]; exact List.mem_append_left _ hmem) vs rfl
+  · refine ⟨?_, h6, r, h1, hrest, hlag⟩
+    rcases h6 with rfl | rfl
+    · rcases hres with hx | ⟨ds', hx, _⟩
+      · cases hx; rfl
+      · cases hx
+    · rcases hres with hx | ⟨ds', hx, hm⟩
+      · cases hx
+      · cases hx; simp at hm; exact hm
 
 /-- non-vacuity: a concrete history (capacity 1, two subscribers, five updates, a transaction, a lagged poll)
     is reachable and the plain subscriber is then lagged -/
